@@ -57,6 +57,18 @@ def gen(seed, tier):
         if L <= 17:
             out.append(f"matmul@{ty} {arr([L, L], small(L * L))} {arr([L, L], small(L * L))}")
             out.append(f"outer@{ty} {arr([L], small(L))} {arr([L + 1], small(L + 1))}")
+    # element types narrower than f64 whose INTERMEDIATE products / partial sums do not fit the type although the
+    # entry does: each entry is the sum of the products (seeded change C14m: dot of two vectors accumulated in the
+    # element type — f32 lost 1 next to 2^24, i16 overflowed)
+    for op in ("dot", "vdot", "inner", "matmul"):
+        out.append(f"{op}@f32 a3:16777216,1,-16777216 a3:1,1,1")
+        out.append(f"{op}@f32 a2:4097,-4096 a2:4097,4098")
+        out.append(f"{op}@f32 a4:3,5000,2,-5000 a4:1,5001,2,5001")
+        out.append(f"{op}@i16 a3:300,300,7 a3:300,-300,3")
+        out.append(f"{op}@i8 a3:12,12,5 a3:12,-12,5")
+    out.append("matmul@f32 a2x2:4097,-4096,1,0 a2x2:4097,0,4098,1")
+    out.append("matmul@i16 a2x2:300,300,1,0 a2x2:300,0,-300,1")
+    out.append("inner@f32 a1x3:16777216,1,-16777216 a2x3:1,1,1,0,1,0")
     # float entries from the pool (NaN, infinities, signed zeros, fractions, 1e300, subnormal): the model names the
     # products each entry adds, in order; agree() evaluates that expression in IEEE arithmetic
     fp = lambda n: [rng.randrange(20) for _ in range(n)]
